@@ -102,6 +102,11 @@ def add_header_to_file(
             )
             out.write("\n")
             path = _determine_license_suffix_path(path)
+            if path.is_symlink():
+                # Never write a header through a (dangling) symbolic link.
+                raise OSError(
+                    _("'{path}' is a symbolic link").format(path=path)
+                )
             if not path.exists():
                 path.touch()
                 created_dot_license = True
